@@ -88,6 +88,10 @@ func compareRaw(out []byte, mode int, w Want) (diffs []Diff, got Inst) {
 		return []Diff{{"decode", "undecodable:" + headHex(out), fmt.Sprintf("% X: %v", out, err)}}, got
 	}
 	add := func(f, d, i string) { diffs = append(diffs, Diff{f, d, i}) }
+	if got.Op == "INT3" && w.Op == "INT" { // CC is the one-byte encoding of INT 3
+		got.Op = "INT"
+		got.Ops = []Operand{{Kind: "imm", Imm: 3, Size: 8}}
+	}
 	if got.Len != len(out) {
 		add("len", fmt.Sprintf("trailing:%d", len(out)-got.Len), fmt.Sprintf("decoded %s from % X", got, out))
 	}
